@@ -575,6 +575,16 @@ func (r *renderer) randGap(nlOK bool, must bool) string {
 				if ch.Intn(4, "cmt2") == 0 {
 					g += "//" + commentPool[ch.Intn(len(commentPool), "cmt")] + "\n"
 				}
+				// blank lines in front of the comment (a file header after empty lines,
+				// a comment block set off from the code above it) or behind it
+				switch ch.Intn(6, "cmtblank") {
+				case 0:
+					g = "\n\n" + strings.TrimLeft(g, " ")
+				case 1:
+					g = "\n" + strings.TrimLeft(g, " ")
+				case 2:
+					g += "\n"
+				}
 			} else {
 				g = " "
 			}
